@@ -939,6 +939,23 @@ static int sig_proof_to_char_array(const picnic_instance_t* pp, const sig_proof_
   const unsigned int unruh_without_input_bytes_size = view_size + input_output_size;
 #endif
 
+  // compute the size of the signature and check that it fits into the provided buffer
+  size_t required_size = (2 * (size_t)num_rounds + 7) / 8 + SALT_SIZE;
+  for (unsigned int i = 0; i < num_rounds; ++i) {
+    required_size += digest_size + view_size + 2 * seed_size;
+#if defined(WITH_UNRUH)
+    if (prf->round[i].gs[(prf->challenge[i] + 2) % 3]) {
+      required_size += unruh_without_input_bytes_size + (prf->challenge[i] ? 0 : input_output_size);
+    }
+#endif
+    if (prf->challenge[i]) {
+      required_size += input_output_size;
+    }
+  }
+  if (*siglen < required_size) {
+    return -1;
+  }
+
   uint8_t* tmp = result;
 
   // write challenge
